@@ -32,10 +32,17 @@ def plan(tier, seed):
             parts.append(Part(H, "chain", {"n": n, "h": list(h)}, 600 if tier == "quick" else 3000, 60, ob, weight=n))
     for n in (1, 2):
         parts.append(Part(H, "manifest", {"n": n}, 300, 60, "manifest of the newest container must exist and verify; stubs only as base"))
+    # edited manifest of the newest committed container while an uncommitted patch sits on top (through the
+    # public API on the record substrate; shared with C10: vt/mfhist.py, tamper clause)
+    parts.append(Part("vt.harness.c10", "exts_history", {}, 900 if tier == "quick" else 3000, 120,
+                      "an edited manifest sidecar of the newest committed container is refused in r/r+/a, also under an uncommitted patch"))
     return parts
 
 
 def confirm(part, kwargs, native):
+    if part.func == "exts_history":
+        import vt.props.c10 as P10
+        return P10.confirm(part, kwargs, native)
     """Stage 2: build real container files with real user blocks (real IH5UserBlock.save, real h5py)
     carrying the counterexample's fields and open them with the real IH5Record."""
     p2 = Part(part.module.replace("c04", "c04_real"), part.func, part.sel)
